@@ -311,17 +311,21 @@ def sessionCheckStrPrefix (cwd sp id : Str) : Bool :=
 def getFilePath (cwd sp id : Str) : Option Str :=
   if sessionCheck cwd sp id then some (sessionFile sp id) else none
 
+/-- `s.endswith(suf)` -/
+def endsWith (s suf : Str) : Bool := suf.reverse.isPrefixOf s.reverse
+
 inductive SessOp where
   | exists_ | load | save | delete | acquireLock
   deriving Repr, DecidableEq
 
-/-- What one of the five methods does with the path (`none` = HTTPError 400, nothing touched). -/
+/-- What one of the five methods does with the path (`none` = HTTPError 400, nothing touched).
+    `_exists` does not look at names ending in LOCK_SUFFIX (they are never session data). -/
 def sessOp (op : SessOp) (cwd sp id : Str) : Option (List Access) :=
   match getFilePath cwd sp id with
   | none => none
   | some f =>
     some (match op with
-      | .exists_ => [⟨.stat, f⟩]
+      | .exists_ => if endsWith f lockSuffix then [] else [⟨.stat, f⟩]
       | .load => [⟨.openR, f⟩]
       | .save => [⟨.openW, f⟩]
       | .delete => [⟨.unlink, f⟩]
@@ -331,8 +335,6 @@ def sessOp (op : SessOp) (cwd sp id : Str) : Option (List Access) :=
 inductive Stored where
   | unreadable | fresh | expired
   deriving Repr, DecidableEq
-
-def endsWith (s suf : Str) : Bool := suf.reverse.isPrefixOf s.reverse
 
 /-- `clean_up`: `listdir(storage_path)`, and per session file lock / load / maybe unlink. -/
 def cleanUp (sp : Str) (listing : List (Str × Stored)) : List Access :=
@@ -382,7 +384,8 @@ def sessionRequest (cwd storage : Str) (cookie : Option Str) (present : Bool)
     pure (e ++ r)
   | some id => do
     let e ← sessOp .exists_ cwd sp id
-    if present then
+    -- `_exists` answers False for a name ending in LOCK_SUFFIX without looking
+    if present && !endsWith (sessionFile sp id) lockSuffix then
       let r ← afterInit cwd sp id gen2 a
       pure (e ++ r)
     else
